@@ -220,7 +220,7 @@ Lemma parse_single_file_ok : forall im cs files total chunks,
   files_ok files total /\ chunks = size_chunks_of total cs /\ fits total cs /\
   Forall (fun f => (f_r1 f, f_r2 f) = set_range (f_offset f) (f_size f) cs) files /\
   (exists name, get_key im k_name = LOk (VStr name) /\ map f_path files = [[name]]) /\
-  (cs = 1 \/ exists len, get_key im k_length = LOk (VInt len) /\ total = Z.to_N len).
+  ((cs = 1 /\ total = 1) \/ exists len, get_key im k_length = LOk (VInt len) /\ total = Z.to_N len).
 Proof.
   intros im cs files total chunks H. unfold parse_single_file in H.
   destruct (get_key im k_name) as [nv| |] eqn:En; cbn [bind] in H; try discriminate.
@@ -240,7 +240,53 @@ Proof.
   - split; [reflexivity|]. split; [exact Ecs|].
     split; [constructor; [|constructor]; unfold mk_file; simpl; destruct (set_range 0 (Z.to_N len) cs); reflexivity|].
     split; [exists name; auto|].
-    destruct (cs =? 1) eqn:E1; [left; apply N.eqb_eq; exact E1|]. right.
+    destruct (cs =? 1) eqn:E1; [left; injection Elen as <-; split; [apply N.eqb_eq; exact E1|reflexivity]|]. right.
     destruct (get_key im k_length) as [lv| |]; cbn [bind] in Elen; try discriminate.
     destruct lv; simpl in Elen; try discriminate. injection Elen as ->. exists len. auto.
+Qed.
+
+(* ------------------------------------------------------------ int64 integers *)
+
+Lemma int64_ok_lookup : forall m k v,
+  int64_ok (VMap m) = true -> lookup k m = Some v -> int64_ok v = true.
+Proof.
+  induction m as [|[k' v'] m IH]; intros k v Hm Hl; simpl in Hl; [discriminate|].
+  simpl in Hm. apply andb_true_iff in Hm. destruct Hm as [H1 H2].
+  destruct (bytes_eqb k k'); [injection Hl as <-; exact H1|].
+  eapply IH; [exact H2 | exact Hl].
+Qed.
+
+Lemma int64_ok_map_insert : forall m k v,
+  int64_ok (VMap m) = true -> int64_ok v = true -> int64_ok (VMap (map_insert k v m)) = true.
+Proof.
+  induction m as [|[k' v'] m IH]; intros k v Hm Hv; simpl.
+  - rewrite Hv. reflexivity.
+  - simpl in Hm. apply andb_true_iff in Hm. destruct Hm as [H1 H2].
+    destruct (bytes_ltb k k'); simpl.
+    + rewrite Hv, H1. exact H2.
+    + destruct (bytes_ltb k' k); simpl.
+      * rewrite H1. apply (IH k v H2 Hv).
+      * rewrite Hv. exact H2.
+Qed.
+
+Lemma int64_ok_insert_preserve : forall m k v,
+  int64_ok (VMap m) = true -> int64_ok v = true -> int64_ok (VMap (insert_preserve_type k v m)) = true.
+Proof.
+  intros m k v Hm Hv. unfold insert_preserve_type.
+  destruct (lookup k m) as [old|]; [destruct (same_type old v); [exact Hm|]|]; apply int64_ok_map_insert; assumption.
+Qed.
+
+Lemma int64_ok_magnet : forall m uri m',
+  parse_magnet_uri m uri = LOk m' -> int64_ok (VMap m) = true -> int64_ok (VMap m') = true.
+Proof.
+  intros m uri m' H Hm. unfold parse_magnet_uri in H.
+  destruct (parse_magnet_hash uri) as [[h trackers]| |]; cbn [bind] in H; try discriminate.
+  assert (Hi : int64_ok (VMap (map_insert k_info
+            (VMap (map_insert k_meta (VInt 1) (map_insert k_name (VStr (to_hex_str h ++ [46; 109; 101; 116; 97]))
+               (map_insert k_pieces (VStr h) [])))) m)) = true).
+  { apply int64_ok_map_insert; [exact Hm|].
+    repeat (apply int64_ok_map_insert; [|reflexivity]). reflexivity. }
+  destruct trackers as [|t0 ts]; injection H as <-; [exact Hi|].
+  apply int64_ok_insert_preserve; [apply int64_ok_insert_preserve; [exact Hi|reflexivity]|].
+  simpl. rewrite forallb_forall. intros x Hx. apply in_map_iff in Hx. destruct Hx as (t & <- & _). reflexivity.
 Qed.
